@@ -106,3 +106,12 @@ def beyond(modules=None, lo=8, hi=10**7, extra=(), cap=None):
 if __name__ == "__main__":
     import json
     print(json.dumps(constants(), indent=1))
+
+
+def extra_sizes(modules, fixed, cap, lo=8):
+    """sizes T+3 for the source constants T (<= cap) that none of the [fixed] sizes already lies beyond without being a multiple"""
+    out = []
+    for t in thresholds(modules, lo=lo, hi=cap):
+        if not any(f > t and f % t for f in fixed) and t + 3 not in out:
+            out.append(t + 3)
+    return out
